@@ -31,7 +31,7 @@ func init() {
 	core.Register(&core.Property{
 		ID:   "C11",
 		Race: true,
-		Rule: "one contract-respecting concurrent program generator per type, run under the Go race detector in race mode: Buffer (Put/Get/Commit/Rollback x SetCleanerConfig/CleanerConfig/Slice/Size/Diff/Range/Done/Close/NewConsumer), Channel (Get/Commit/Rollback/Buffer/Done/Close), ChanCaster, ChanPubSub (manual and iterator subscribers, all unsubscribe routes), " +
+		Rule: "one contract-respecting concurrent program generator per type, run under the Go race detector in race mode: Buffer (Put, incl. spread Puts from a scratch slice the producer overwrites once Put has returned,/Get/Commit/Rollback x SetCleanerConfig/CleanerConfig/Slice/Size/Diff/Range/Done/Close/NewConsumer), Channel (Get/Commit/Rollback/Buffer/Done/Close), ChanCaster, ChanPubSub (manual and iterator subscribers, all unsubscribe routes), " +
 			"Exclusive (all call styles), Workers (Call/Wrap/Wait/Count), Worker, Notifier (Subscribe*/Unsubscribe/Publish*), WaitCond, Combine/Conflated/ChainAfterFunc, LinearAttempt, ExponentialRetry (one returned function invoked concurrently); payloads are pointers to plain structs written just before hand-over and read just after receipt, so a missing publication edge is itself a reportable race; " +
 			"reports are read from the GORACE log files, classified by frames (library function or payload helper on either side => violation; harness-only => harness error) and de-duplicated by the unordered pair of top functions. non-trivial = the program ran at least two goroutines through the type; distinct = distinct (type, parameters) programs",
 		Assumptions: []string{
@@ -69,10 +69,20 @@ func c11Buffer(c *core.Ctx) {
 		wg.Add(1)
 		go func() {
 			defer wg.Done()
+			batch := make([]interface{}, 0, 8) // the producer's own scratch slice, reused after every Put
 			for i := 0; i < n; i++ {
 				pl := &Payload{}
 				PayloadWrite(pl, i)
-				if i%5 == 0 {
+				if i%7 == 3 || i == 0 {
+					// spread call with a slice the caller goes on using: once Put has returned the slice is the
+					// caller's again (the buffer must hold its own copy)
+					pl2 := &Payload{}
+					PayloadWrite(pl2, i)
+					batch = append(batch[:0], pl, pl2)
+					_ = b.Put(ctx, batch...)
+					batch[0], batch[1] = nil, nil
+					batch = append(batch[:0], pl, pl, pl)[:0]
+				} else if i%5 == 0 {
 					pl2 := &Payload{}
 					PayloadWrite(pl2, i)
 					_ = b.Put(ctx, pl, pl2)
